@@ -7,6 +7,7 @@ import (
 	"fmt"
 	"io"
 	"math/big"
+	"os"
 	"os/exec"
 	"strings"
 	"time"
@@ -37,6 +38,11 @@ type Solver struct {
 	log       io.Writer
 	dead      bool
 	level     int
+
+	script    []string // definitions and assertions of the current path (for fallback solvers)
+	recording bool
+	Fallbacks []string
+	FallbackN int // queries answered by a fallback solver
 }
 
 func solverArgv(kind string, timeoutMs int) []string {
@@ -80,12 +86,15 @@ func (s *Solver) start() error {
 	s.declUF = map[string]bool{}
 	s.dead = false
 	s.level = 0
+	s.recording = false
+	s.script = s.script[:0]
 	if s.kind == "cvc5" {
 		s.send("(set-logic ALL)")
 	}
 	s.send("(set-option :produce-models true)")
 	s.send("(push 1)")
 	s.level = 1
+	s.recording = true
 	return nil
 }
 
@@ -105,6 +114,9 @@ func (s *Solver) restart() {
 }
 
 func (s *Solver) send(line string) {
+	if s.recording {
+		s.script = append(s.script, line)
+	}
 	if s.log != nil {
 		fmt.Fprintln(s.log, line)
 	}
@@ -161,11 +173,14 @@ func (s *Solver) NewPath() {
 		s.restart()
 		return
 	}
+	s.recording = false
+	s.script = s.script[:0]
 	s.send(fmt.Sprintf("(pop %d)", s.level))
 	s.send("(push 1)")
 	s.level = 1
 	s.defined = map[int]bool{}
 	s.declUF = map[string]bool{}
+	s.recording = true
 }
 
 func (s *Solver) define(tt *TermTable, t *Term) {
@@ -208,6 +223,10 @@ func (s *Solver) Check(tt *TermTable, extra *Term, wantModel bool, vars []*Term)
 	}
 	if extra != nil {
 		s.define(tt, extra) // definitions outside the inner push so they persist on the path
+	}
+	s.recording = false
+	defer func() { s.recording = true }()
+	if extra != nil {
 		s.send("(push 1)")
 		s.send("(assert " + extra.ref() + ")")
 	}
@@ -226,6 +245,13 @@ func (s *Solver) Check(tt *TermTable, extra *Term, wantModel bool, vars []*Term)
 		res = Sat
 	case strings.HasPrefix(rep, "unknown"), strings.HasPrefix(rep, "timeout"):
 		res = Unknown
+		if r2, m2, ok := s.fallback(extra, wantModel, vars); ok {
+			if extra != nil {
+				s.send("(pop 1)")
+			}
+			s.FallbackN++
+			return r2, m2
+		}
 		s.Unknowns++
 	default:
 		// (error ...) or anything else: inconclusive; restart to get a clean state
@@ -379,4 +405,68 @@ func parseValue(toks []string) *big.Int {
 		return v
 	}
 	return nil
+}
+
+
+// fallback re-runs the current query (path script + extra) one-shot on the other solvers.
+func (s *Solver) fallback(extra *Term, wantModel bool, vars []*Term) (Result, Model, bool) {
+	if len(s.Fallbacks) == 0 {
+		return Unknown, nil, false
+	}
+	var sb strings.Builder
+	sb.WriteString("(set-option :produce-models true)\n")
+	for _, l := range s.script {
+		sb.WriteString(l)
+		sb.WriteByte('\n')
+	}
+	if extra != nil {
+		sb.WriteString("(assert " + extra.ref() + ")\n")
+	}
+	sb.WriteString("(check-sat)\n")
+	if wantModel && len(vars) > 0 {
+		var names []string
+		for _, v := range vars {
+			names = append(names, v.ref())
+		}
+		sb.WriteString("(get-value (" + strings.Join(names, " ") + "))\n")
+	}
+	for _, fb := range s.Fallbacks {
+		f, err := os.CreateTemp("/var/tmp", "gosym-q-*.smt2")
+		if err != nil {
+			return Unknown, nil, false
+		}
+		script := sb.String()
+		if fb == "cvc5" {
+			script = "(set-logic ALL)\n" + script
+		}
+		f.WriteString(script)
+		f.Close()
+		var argv []string
+		switch fb {
+		case "z3-new":
+			argv = []string{"z3-new", fmt.Sprintf("-T:%d", s.timeoutMs/1000+1), f.Name()}
+		case "z3":
+			argv = []string{"/usr/bin/z3", fmt.Sprintf("-T:%d", s.timeoutMs/1000+1), f.Name()}
+		case "cvc5":
+			argv = []string{"cvc5", "--lang=smt2", fmt.Sprintf("--tlimit=%d", s.timeoutMs), "--produce-models", f.Name()}
+		}
+		out, _ := exec.Command(argv[0], argv[1:]...).Output()
+		os.Remove(f.Name())
+		rep := strings.TrimSpace(string(out))
+		if strings.Contains(rep, "(error") {
+			continue
+		}
+		switch {
+		case strings.HasPrefix(rep, "unsat"):
+			return Unsat, nil, true
+		case strings.HasPrefix(rep, "sat"):
+			m := Model{}
+			if wantModel && len(vars) > 0 {
+				rest := strings.TrimSpace(strings.TrimPrefix(rep, "sat"))
+				parseGetValue(rest, vars, m)
+			}
+			return Sat, m, true
+		}
+	}
+	return Unknown, nil, false
 }
